@@ -146,7 +146,11 @@ def analyse(obs: Obs, prog):
     # generate delegates
     r = ev.eval_fn(D.methods["generate"], D.module, D)
     tgt = [t for c, t in arms_of(r)]
-    okd = len(tgt) == 1
+    gcm = ("call", ("attr", SELF, "generate_choice_map"), (P("key"), P("constraint"), P("args")), ())
+    evg_ = Evaluator(prog)
+    evg_.opaque_methods.add("generate_choice_map")
+    rg_ = evg_.eval_fn(D.methods["generate"], D.module, D)
+    okd = len(tgt) == 1 and any(t == ("tuple", (mk_proj(gcm, 0), mk_proj(gcm, 1))) for c, t in arms_of(rg_))
     obs.add({"C03", "C38"}, "DELEG-ROLE", "Distribution.generate", okd, derived=f"{len(tgt)} returning arm(s)", expected="one (ChoiceMap) arm; others raise", where=W(D, "generate"))
 
     # ---------------------------------------------------------------- edit_update_with_constraint
